@@ -20,6 +20,7 @@ EXPLANATION = (
     " Third session: (docs-agreement) every status code the service-class documentation lists for a service is a key of the table that service's SCP consults (implementation-specific ranges excluded); (category-use) borrowed from C22's classification rule: the Get / Move SCP files a sub-operation's status under the counter of its category; (scp-finality) borrowed from C20."
     " Fifth round: (category-use) borrows C22's evaluated classification; the SCU-side category must come from `code_to_category` (tuple unpacking followed); the status tables are not written at run time."
     " Fifth round (end): (category-use) also borrows C21's n-reply evaluation; (category-test-complete) a by-value test of a status against members of a small category (Pending) names every member."
+    ' Sixth round: (docs-agreement) documented ranges are compared code by code, both ends included; tables built through a helper are followed.'
 )
 
 
